@@ -167,6 +167,13 @@ func heartbeatScenario(role string, n int, pattern string) {
 			time.Sleep(N / 40)
 		}
 		time.Sleep(N*2 + N/2)
+	case "testrequest-mid": // the Heartbeat that answers a TestRequest is outbound traffic like any other
+		deadline := time.Now().Add(dur)
+		for i := 0; time.Now().Before(deadline); i++ {
+			time.Sleep(N / 2)
+			_ = l.Send(l.PeerMsg("1", "112=mid"+strconv.Itoa(i)+"\x01"))
+			time.Sleep(N + N/4)
+		}
 	}
 	close(stop)
 	msgs := l.Snapshot()
@@ -271,6 +278,68 @@ func silenceScenario(role string, n int, pattern string) {
 		case <-time.After(2 * time.Second):
 			verdict("C09", mode, "closed", "fail: the connection was not closed after the disconnect event", tags...)
 		}
+	case "answer-resend": // a ResendRequest arriving while the session probes is served (C10)
+		if _, ok := waitProbe(); !ok {
+			verdict("C10", mode, "probe", "skip: no TestRequest after silence", tags...)
+			return
+		}
+		first := l.Snapshot()
+		if len(first) == 0 {
+			verdict("C10", mode, "resend", "skip: nothing was sent", tags...)
+			return
+		}
+		orig := first[0]
+		time.Sleep(Tin / 4)
+		asked := time.Now()
+		_ = l.Send(l.PeerMsg("2", fmt.Sprintf("7=%d\x0116=%d\x01", orig.Seq, orig.Seq)))
+		got := false
+		rejected := false
+		deadline := time.Now().Add(time.Second)
+		for time.Now().Before(deadline) && !got && !rejected {
+			for _, m := range l.Snapshot() {
+				if m.At.After(asked) && m.Seq == orig.Seq && m.Type == orig.Type {
+					got = true
+				}
+				if m.At.After(asked) && m.Type == "3" {
+					rejected = true
+				}
+			}
+			time.Sleep(20 * time.Millisecond)
+		}
+		switch {
+		case got:
+			verdict("C10", mode, "resend", "ok", tags...)
+		case rejected:
+			verdict("C10", mode, "resend", "fail: a ResendRequest received while the session waits for the answer to its own TestRequest was rejected instead of served", tags...)
+		default:
+			verdict("C10", mode, "resend", "fail: a ResendRequest received while the session waits for the answer to its own TestRequest was not served", tags...)
+		}
+		return
+	case "answer-logout": // the peer's Logout arriving while the session probes is acknowledged once (C15)
+		if _, ok := waitProbe(); !ok {
+			verdict("C15", mode, "probe", "skip: no TestRequest after silence", tags...)
+			return
+		}
+		time.Sleep(Tin / 4)
+		asked := time.Now()
+		_ = l.Send(l.PeerMsg("5", ""))
+		time.Sleep(700 * time.Millisecond)
+		loggedUntil = time.Now()
+		logouts, rejects := 0, 0
+		for _, m := range l.Snapshot() {
+			if m.At.After(asked) && m.Type == "5" {
+				logouts++
+			}
+			if m.At.After(asked) && m.Type == "3" {
+				rejects++
+			}
+		}
+		if logouts == 1 && rejects == 0 {
+			verdict("C15", mode, "logout", "ok", tags...)
+		} else {
+			verdict("C15", mode, "logout", fmt.Sprintf("fail: the peer's Logout received while the session waits for the answer to its own TestRequest was answered by %d Logout(s) and %d Reject(s)", logouts, rejects), tags...)
+		}
+		return
 	case "answer-heartbeat", "answer-other", "answer-testrequest": // an answer in the second period cancels the disconnect
 		p, ok := waitProbe()
 		if !ok {
@@ -482,11 +551,11 @@ func main() {
 	for _, n := range ns {
 		for _, role := range []string{"A", "I"} {
 			n, role := n, role
-			for _, p := range []string{"idle", "just-before", "just-after", "burst"} {
+			for _, p := range []string{"idle", "just-before", "just-after", "burst", "testrequest-mid"} {
 				p := p
 				run(func() { heartbeatScenario(role, n, p) })
 			}
-			for _, p := range []string{"total", "answer-heartbeat", "answer-other", "answer-testrequest", "steady-1.0", "steady-0.9", "steady-0.5"} {
+			for _, p := range []string{"total", "answer-heartbeat", "answer-other", "answer-testrequest", "answer-resend", "answer-logout", "steady-1.0", "steady-0.9", "steady-0.5"} {
 				p := p
 				run(func() { silenceScenario(role, n, p) })
 			}
